@@ -587,12 +587,37 @@ partial def expandControl (impl : Bool) : Sexp → Sexp
   | .list xs => .list (xs.map (expandControl impl))
   | s => s
 
-/-- Base's library procedures in the object language, plus the one shape of `transduce` the generator emits
-(`(transduce l (mapping f) (into-list))` = `(map f l)`, elements processed left to right). -/
+/-- Base's library procedures in the object language, plus the shapes of `transduce` the generator emits:
+`(transduce l stage … reducer)` with stages `(mapping f)` / `(filtering p)` and reducers `(into-list)` /
+`(into-for-each f)` / `(into-reducer f init)`.  A transducer pipeline is lazy: the elements are processed one
+at a time, left to right, each one through all the stages and then into the reducer (`filtering` drops an
+element exactly when the predicate answers `#f`); `into-reducer`'s function receives `(accumulator element)`. -/
 def preludeSrc : String := SteelVerif.Base.preludeSrc ++ "
-(define (mapping f) f)
-(define (into-list) 'into-list)
-(define (transduce l f r) (map f l))"
+(define (mapping f) (list 'tmap f))
+(define (filtering f) (list 'tfilter f))
+(define (into-list) (list 'rlist))
+(define (into-for-each f) (list 'rforeach f))
+(define (into-reducer f init) (list 'rreduce f init))
+(define (%tstages ops) (if (null? (cdr ops)) '() (cons (car ops) (%tstages (cdr ops)))))
+(define (%tapply stages v)
+  (cond [(null? stages) (list v)]
+        [(eq? (car (car stages)) 'tmap) (%tapply (cdr stages) ((cadr (car stages)) v))]
+        [((cadr (car stages)) v) (%tapply (cdr stages) v)]
+        [else '()]))
+(define (%trun l stages r acc)
+  (if (null? l)
+      (cond [(eq? (car r) 'rlist) (reverse acc)]
+            [(eq? (car r) 'rforeach) (void)]
+            [else acc])
+      (let ((o (%tapply stages (car l))))
+        (if (null? o)
+            (%trun (cdr l) stages r acc)
+            (%trun (cdr l) stages r
+                   (cond [(eq? (car r) 'rlist) (cons (car o) acc)]
+                         [(eq? (car r) 'rforeach) (begin ((cadr r) (car o)) acc)]
+                         [else ((cadr r) acc (car o))]))))))
+(define (transduce l . ops)
+  (%trun l (%tstages ops) (last ops) (if (eq? (car (last ops)) 'rreduce) (caddr (last ops)) '())))"
 
 /-- NOT the specification: the Scheme-level mechanisms of the real engine, transcribed into the object language
 and run on this machine's PRIMITIVE continuations (`%raw-call/cc`) and handler frames:
